@@ -87,7 +87,7 @@ class Prop:
     id = "C39"
     level = "exploration"
     engine = "VT"
-    quick_runs = 30000
+    quick_runs = 50000
     thorough_runs = 1000000
     rule = ("seeded pipelines (depth 1-3) are built twice on twin worlds with identical timelines: once through the catalogue's piped form "
             "source.pipe(ops.name(args)) and once by calling the same-named fluent method source.name(args) with the very same argument "
